@@ -8,13 +8,15 @@ VARIABLE l
 AllDocs == JsonDeserialize("docs.json")
 Trace == ndJsonDeserialize("trace.ndjson")
 SeqSet(s) == {s[i] : i \in DOMAIN s}
+\* evaluated once per document (a constant), not once per line
+MustRefuse == [i \in DOMAIN AllDocs |-> Refused(AllDocs[i])]
 Bad(r) ==
     LET doc == AllDocs[r.doc] IN
-    CASE r.k = "load" -> {x \in {"refusal"} : r.refused # Refused(doc)}
+    CASE r.k = "load" -> {x \in {"refusal"} : r.refused # MustRefuse[r.doc]}
       [] r.k = "msg" ->
            \* a document that must be refused says nothing about its messages (its names do not resolve);
            \* that it was loaded at all is reported by the "load" line
-           IF Refused(doc) THEN {} ELSE
+           IF MustRefuse[r.doc] THEN {} ELSE
            LET e == Expect(doc, IF r.name = "header" THEN doc.header ELSE IF r.name = "trailer" THEN doc.trailer
                                 ELSE doc.messages[r.idx].parts)
                og == {<<r.groups[i].path, r.groups[i].members>> : i \in DOMAIN r.groups}
